@@ -653,6 +653,8 @@ class Array(Sequence):
                     key = None
                 if child_name and key != child_name:
                     continue
+                elif not child_name and key is not None:
+                    continue
                 member = self.member_schema.from_flat([(key, value)])
                 self.append(member)
         else:
